@@ -6,7 +6,9 @@
    encoded block is shorter than 2^32 bytes (offsets are uint32 in the format), every comparer
    satisfying the contract. *)
 From GL Require Import Base.Order Base.Varint Base.VarintProofs Base.Cursor Base.CursorProofs
-  Codec.BytesCmp Codec.BytesCmpProofs Codec.Block Codec.BlockEnc Codec.BlockProofs.
+  Codec.BytesCmp Codec.BytesCmpProofs Codec.Block Codec.BlockEnc Codec.BlockProofs
+  Codec.Table Codec.TableProofs Codec.TableIterProofs Codec.TableDamageProofs
+  Codec.TableCheck Codec.TableCheckProofs Codec.TblCrc Gen.ConstsOkTbl.
 
 (* A.0  uvarint: Uvarint (PutUvarint x ++ rest) = (x, len) for every uint64 x. *)
 Theorem C13_uvarint_roundtrip : forall x rest, (x < 2 ^ 64)%N ->
@@ -46,6 +48,129 @@ Theorem C13_block_iter_refines_cursor : forall c ri kvs,
 Proof. exact block_iter_refines_cursor. Qed.
 Print Assumptions C13_block_iter_refines_cursor.
 
+(* ------------------------------------------------------------------------------------------------
+   Stage B (table level over an abstract block store).  [table_wf c rd blocks seps hs] (TableProofs.v):
+   the reader's index block is the block blockWriter builds for the entries (sep j, handle j), every
+   handle fetches the block built for the pairs [blocks j], the pairs are strictly increasing, and
+   the separators satisfy   last key of block j <= sep j < first key of block j+1.
+   [tkvs blocks] is the list of all pairs.  The theorems hold for every comparer satisfying the
+   contract and every reader satisfying table_wf — in particular (C.2) for every file, written by
+   whatever writer, that the executable check [table_check] accepts. *)
+
+(* B.1  table_find_first_ge: Find(key) (index seek, data-block seek, fall through to the next block)
+   returns the first pair whose key is >= key, NotFound when there is none. *)
+Theorem C13_table_find_first_ge : forall c rd blocks seps hs key,
+  comparer_ok c -> table_wf c rd blocks seps hs ->
+  tfind c rd key false =
+  match first_ge c key (tkvs blocks) 0 with
+  | Some i => match nth_error (tkvs blocks) i with Some (k, v) => FFound k v | None => FOther end
+  | None => FNotFound
+  end.
+Proof. intros c rd blocks seps hs key Hc Hw. exact (tfind_first_ge c Hc rd blocks seps hs Hw key). Qed.
+Print Assumptions C13_table_find_first_ge.
+
+(* B.2  table_get: Get returns the stored value of a stored key and NotFound for any other key. *)
+Theorem C13_table_get_present : forall c rd blocks seps hs k v,
+  comparer_ok c -> table_wf c rd blocks seps hs -> In (k, v) (tkvs blocks) -> tget c rd k = FFound k v.
+Proof. intros c rd blocks seps hs k v Hc Hw. exact (tget_present c Hc rd blocks seps hs Hw k v). Qed.
+Print Assumptions C13_table_get_present.
+
+Theorem C13_table_get_absent : forall c rd blocks seps hs k,
+  comparer_ok c -> table_wf c rd blocks seps hs -> (forall v, ~ In (k, v) (tkvs blocks)) -> tget c rd k = FNotFound.
+Proof. intros c rd blocks seps hs k Hc Hw. exact (tget_absent c Hc rd blocks seps hs Hw k). Qed.
+Print Assumptions C13_table_get_absent.
+
+(* B.3  index_routes: by the separator law, the block the index seek selects for a key is the only
+   block that can hold that key. *)
+Theorem C13_index_routes : forall c rd blocks seps hs key j j' x,
+  comparer_ok c -> table_wf c rd blocks seps hs ->
+  c_seek c (ientries seps hs) key = CAt j ->
+  (j' < length blocks)%nat -> In x (nth j' blocks []) -> fst x = key -> j' = j.
+Proof.
+  intros c rd blocks seps hs key j j' x Hc Hw Hs.
+  exact (routes_only c Hc rd blocks seps hs Hw key j j' x (index_seek_at c rd blocks seps hs Hw key j Hs)).
+Qed.
+Print Assumptions C13_index_routes.
+
+(* B.4  table_iter_refines_cursor — PARTIAL: proved for the unsliced iterator NewIterator(nil, ro)
+   (both settings of the strict flag): every sequence of First/Last/Seek/Next/Prev on the indexed
+   iterator observes what the reference cursor over all pairs observes.
+   FULL STATEMENT (not proved; exercised by (K) and (P) only): for every slice (start, limit),
+   new_titer c rd (Some (start, limit)) strict = inr t and
+   fst (ti_run c rd t ops) = c_run c (restrict c start limit (tkvs blocks)) CSOI ops. *)
+Theorem C13_table_iter_refines_cursor_partial : forall c rd blocks seps hs strict,
+  comparer_ok c -> table_wf c rd blocks seps hs ->
+  exists t, new_titer c rd None strict = inr t /\
+    forall ops, fst (ti_run c rd t ops) = c_run c (tkvs blocks) CSOI ops.
+Proof. intros c rd blocks seps hs strict. exact (table_iter_refines c rd blocks seps hs strict). Qed.
+Print Assumptions C13_table_iter_refines_cursor_partial.
+
+(* B.5  offsetof_monotone: approximate offsets never decrease as the key grows. *)
+Theorem C13_offsetof_monotone : forall c rd blocks seps hs k1 k2,
+  comparer_ok c -> table_wf c rd blocks seps hs -> cmp c k1 k2 <> Gt ->
+  exists o1 o2, toffset_of c rd k1 = Ok o1 /\ toffset_of c rd k2 = Ok o2 /\ (o1 <= o2)%N.
+Proof. intros c rd blocks seps hs k1 k2 Hc Hw. exact (toffset_mono c Hc rd blocks seps hs Hw k1 k2). Qed.
+Print Assumptions C13_offsetof_monotone.
+
+(* B.6  filter_independent: with any filter that has no false negative on the keys of each data
+   block (filter_sound), the exact-match lookup through the filter (what the DB does with
+   Find(key, filtered = true)) equals Get without consulting a filter. *)
+Theorem C13_filter_independent : forall c rd blocks seps hs key,
+  comparer_ok c -> table_wf c rd blocks seps hs -> filter_sound rd blocks hs ->
+  tget_filtered c rd key = tget c rd key.
+Proof. intros c rd blocks seps hs key Hc Hw. exact (tget_filter_independent c Hc rd blocks seps hs Hw key). Qed.
+Print Assumptions C13_filter_independent.
+
+(* ------------------------------------------------------------------------------------------------
+   Stage C (bytes).  The checksum and the compression codec are parameters. *)
+
+(* C.1  table_damage_contained, conditional on [detects] (stored CRC <> CRC of the stored bytes):
+   a verifying read of that block never returns a block ... *)
+Theorem C13_table_damage_contained : forall tp crc decompress file h,
+  detects tp crc file h ->
+  match read_block_at tp crc decompress file h true with Ok _ => False | _ => True end.
+Proof. exact read_block_detects. Qed.
+Print Assumptions C13_table_damage_contained.
+
+(* ... and a reader some of whose block reads fail that way answers Find / Get exactly as the
+   intact reader or with Corrupted — never with invented or misattributed data; OffsetOf is
+   unaffected.  (The analogous statement for iterators — the strict iterator stops with the error,
+   the non-strict one skips the block — is exercised by (K) on damaged tables and by (P) on every
+   single-byte alteration; it is not proved.) *)
+Theorem C13_table_reads_degrade_to_corruption : forall c rd rd' key filtered,
+  degraded rd rd' ->
+  (tfind c rd' key filtered = tfind c rd key filtered \/ tfind c rd' key filtered = FCorrupted) /\
+  (tget c rd' key = tget c rd key \/ tget c rd' key = FCorrupted) /\
+  toffset_of c rd' key = toffset_of c rd key.
+Proof.
+  intros c rd rd' key filtered D. split; [exact (tfind_degraded c rd rd' D key filtered)|].
+  split; [exact (tget_degraded c rd rd' D key) | exact (toffset_degraded c rd rd' D key)].
+Qed.
+Print Assumptions C13_table_reads_degrade_to_corruption.
+
+(* C.2  format membership: a reader accepted by the executable check [table_check] (every block
+   re-encodes to its bytes with the given restart interval, separators and handles as required)
+   is well-formed, with exactly the returned pairs.  The correspondence run evaluates table_check
+   on the bytes of tables written by the Go writer. *)
+Theorem C13_table_check_sound : forall c rd ri kvs, table_check c rd ri = Some kvs ->
+  exists blocks seps hs, table_wf c rd blocks seps hs /\ tkvs blocks = kvs.
+Proof. exact table_check_sound. Qed.
+Print Assumptions C13_table_check_sound.
+
+(* C.3  table_wf_of_write — NOT PROVED IN GENERAL (stated; instances are checked by computation):
+   FULL STATEMENT: for every comparer satisfying the contract for which the empty key is least,
+   every blockSize, restart interval >= 1, codec with decompress (compress x) = Some x, checksum
+   below 2^32, filter generator, and strictly increasing kvs whose file is shorter than 2^32 bytes:
+     twrite ... kvs = Some file  and  table_check c (open_table ... file) ri = Some kvs.
+   The Example below is one instance (three data blocks); the correspondence run checks the same
+   for the model writer against the Go writer byte for byte (soft) and table_check on every file
+   written by the Go writer (hard). *)
+
+(* the constants of the current source satisfy the layout side conditions *)
+Theorem C13_table_constants_ok : tparams_ok tblp.
+Proof. exact tblp_ok. Qed.
+Print Assumptions C13_table_constants_ok.
+
 (* Non-vacuity: the documented example block (restart interval 2) meets the hypotheses, its
    bytes are the documented ones, and a walk with reversals at the restart point behaves. *)
 Definition ex_kvs : list (bytes * bytes) :=
@@ -65,4 +190,26 @@ Example C13_nonvacuous :
 Proof.
   split; [exact bytewise_ok|]. split; [vm_compute; auto|]. split; [vm_compute; reflexivity|].
   split; vm_compute; reflexivity.
+Qed.
+
+(* Non-vacuity of table_wf: a seven-pair table written by the model writer (block size 24, restart
+   interval 2, no compression, CRC-32C) has three data blocks, passes table_check when opened by
+   the model reader with checksum verification, hence is table_wf; lookups behave. *)
+Definition ex_tkvs : list (bytes * bytes) :=
+  [([97], [1;1]); ([97;98], []); ([97;98;99], [2]); ([98], [3;3;3]); ([98;98], [4]); ([99;100], [5]); ([100], [6;6])]%N.
+Definition ex_reader : treader :=
+  match twrite tblp tbl_crc (fun x => x) bytewise 24 2 false None ex_tkvs with
+  | Some f => open_table tblp tbl_crc (fun _ => None) (fun _ _ _ => true) bytewise f None true
+  | None => tr_broken Corrupt
+  end.
+Example C13_table_nonvacuous :
+  (exists blocks seps hs, table_wf bytewise ex_reader blocks seps hs /\ tkvs blocks = ex_tkvs /\ length blocks = 3%nat) /\
+  tget bytewise ex_reader [98;98]%N = FFound [98;98]%N [4]%N /\
+  tfind bytewise ex_reader [97;99]%N false = FFound [98]%N [3;3;3]%N.
+Proof.
+  split; [|split; vm_compute; reflexivity].
+  exists [[([97], [1;1]); ([97;98], []); ([97;98;99], [2])]; [([98], [3;3;3]); ([98;98], [4]); ([99;100], [5])]; [([100], [6;6])]]%N,
+         [[97;98;99]; [99;100]; [101]]%N, [mkBH 0 29; mkBH 34 30; mkBH 69 14]%N.
+  split; [|split; reflexivity].
+  apply (table_wfb_sound bytewise ex_reader 2). vm_compute. reflexivity.
 Qed.
